@@ -1,7 +1,7 @@
 (* C17 — Governance: only the listed owner changes a parameter or moves DAO funds. Statements only. *)
 From Coq Require Import List ZArith NArith Bool.
 From PM Require Import Base.Bytes Store.KV Store.MergeProofs Num.IntModel Num.DecModel Num.DecProofs
-  App.Model App.BankProofs App.TxProofs App.KeyProofs App.GovProofs App.Examples.
+  App.Model App.BankProofs App.TxProofs App.KeyProofs App.GovProofs App.PoolProofs App.DaoProofs App.Examples App.Invariants.
 Import ListNotations.
 Local Open Scope Z_scope.
 
@@ -30,6 +30,22 @@ Theorem C17_begin_block_changes_no_parameter s h t prop votes evs s' : begin_blo
 Proof. exact (gv_begin_block s h t prop votes evs s'). Qed.
 Theorem C17_end_block_changes_no_parameter s s' ups : end_block s = Some (s', ups) -> gov_view s' = gov_view s.
 Proof. exact (gv_end_block s s' ups). Qed.
+(* DAO funds, over the whole block cycle: in every step of every history (module accounts at distinct addresses, no
+   transaction signed by the pool's or the DAO's address) the DAO balance does not go down - except in a delivered DAO
+   message whose sender is the DAO owner, and then by at most the stated amount (App/DaoProofs.v) *)
+Theorem C17_dao_balance_falls_only_by_the_owners_message MA s o s' : m_fee MA <> m_dao MA -> m_pos MA <> m_dao MA ->
+  pool_ok MA s -> op_okd MA o -> step s o = Some s' ->
+  pool_ok MA s' /\
+  (bal s (m_dao MA) <= bal s' (m_dao MA) \/
+   exists t f to amt act, o = OTx t /\ t_msg t = MDao f to amt act /\ beqb (dao_owner s) f = true /\ 0 <= amt /\
+                          bal s (m_dao MA) - amt <= bal s' (m_dao MA)).
+Proof. intros Df Dp. exact (step_dao MA Df Dp s o s'). Qed.
+Example C17_ex_dao_premises : m_fee ex_ma <> m_dao ex_ma /\ m_pos ex_ma <> m_dao ex_ma /\ Forall (op_okd ex_ma) ex_ops /\
+  (exists s ups, ex_genesis = Some (s, ups) /\ pool_ok ex_ma s).
+Proof.
+  split; [discriminate|]. split; [discriminate|]. split; [repeat constructor; cbn; discriminate|].
+  destruct ex_genesis_all_ok as (s & ups & E & _ & _ & P & _). exists s, ups. auto.
+Qed.
 Example C17_ex : match ex_genesis with
   | Some (s, _) => handle s (MDao A2 A3 5 1) = HErr s /\ (exists s', handle s (MDao A1 A3 5 1) = HOk s' /\ bal s' DAO = 495)
   | None => False end.
@@ -37,3 +53,4 @@ Proof. vm_compute. split; [reflexivity|eexists; split; reflexivity]. Qed.
 Print Assumptions C17_params_change_needs_owner.
 Print Assumptions C17_dao_needs_owner.
 Print Assumptions C17_only_the_owners_tx_changes_parameters.
+Print Assumptions C17_dao_balance_falls_only_by_the_owners_message.
